@@ -10,6 +10,27 @@ import (
 // ---- C10: a handler's status reaches the client unchanged ----
 
 func genStatusMsg(r *core.Rand) string {
+	if r.Chance(1, 3) {
+		// printable ASCII with exactly one kind of boundary character: the
+		// edges of the printable range, the escape character, and the first
+		// bytes beyond ASCII, each on its own
+		special := core.Pick(r, "\x00", "\x1f", " ", "%", "~", "\x7f", "\x80", "\xff", "\u00e9", "\n", "\t")
+		n := r.Range(0, 12)
+		b := make([]byte, 0, n+8)
+		at := r.Intn(n + 1)
+		for i := 0; i <= n; i++ {
+			if i == at {
+				b = append(b, special...)
+				if r.Chance(1, 3) {
+					b = append(b, special...)
+				}
+			}
+			if i < n {
+				b = append(b, byte('a'+r.Intn(26)))
+			}
+		}
+		return string(b)
+	}
 	switch r.Intn(7) {
 	case 0:
 		return ""
@@ -210,8 +231,14 @@ func genC22(seed uint64, tier string) *Scenario {
 	r, s := genBase(seed, tier)
 	s.Oracles = []string{"deadline", "status_error"}
 	s.Client.DisableRetry = r.Chance(1, 2)
-	block := r.Intn(5)
+	block := r.Intn(6)
 	n := r.Range(1, 5)
+	if block == 5 {
+		// the RPC sits in a retry backoff (or pushback delay) when the deadline
+		// passes or the context is cancelled
+		s.Client.DisableRetry = false
+		s.Client.ServiceConfig = fmt.Sprintf(`{"methodConfig":[{"name":[{}],"retryPolicy":{"maxAttempts":%d,"initialBackoff":"%ds","maxBackoff":"%ds","backoffMultiplier":%d,"retryableStatusCodes":["UNAVAILABLE"]}}]}`, r.Range(2, 5), r.Range(1, 20), r.Range(20, 100), r.Range(1, 3))
+	}
 	if block == 1 {
 		s.Server.MaxStreams = uint32(r.Range(1, 2))
 		n = r.Range(2, 6)
@@ -247,6 +274,11 @@ func genC22(seed uint64, tier string) *Scenario {
 			rpc.WaitReady = r.Chance(2, 3)
 			rpc.Client = append(rpc.Client, Op{Op: "send", N: 10}, Op{Op: "close_send"}, Op{Op: "recv_all"})
 			srv = append(srv, Op{Op: "recv_all"}, Op{Op: "send", N: 10})
+		case 5:
+			rpc.DeadlineNs = int64(r.LogUniform(1000000, 30000000000))
+			rpc.Client = append(rpc.Client, Op{Op: "send", N: r.Intn(2000)}, Op{Op: "close_send"}, Op{Op: "recv_all"})
+			fail := []Op{{Op: "return", Code: 14, Msg: "try again later"}}
+			rpc.Server = [][]Op{fail, fail, fail, {{Op: "recv_all"}, {Op: "send", N: 10}}}
 		default: // ordinary traffic with tight deadlines
 			rpc.Client = append(rpc.Client, Op{Op: "send", N: genSize(r, 65535)}, Op{Op: "recv"}, Op{Op: "close_send"}, Op{Op: "recv_all"})
 			srv = append(srv, Op{Op: "recv"}, Op{Op: "send", N: genSize(r, 65535)}, Op{Op: "recv_all"})
@@ -257,7 +289,9 @@ func genC22(seed uint64, tier string) *Scenario {
 			ops = append(ops, Op{Op: "sleep", Ns: int64(r.LogUniform(1, 2000000000))}, Op{Op: "cancel"})
 			rpc.Client = append(ops, rpc.Client[at:]...)
 		}
-		rpc.Server = [][]Op{srv}
+		if rpc.Server == nil {
+			rpc.Server = [][]Op{srv}
+		}
 		s.RPCs = append(s.RPCs, rpc)
 	}
 	if block == 3 {
